@@ -220,3 +220,66 @@ theorem absColumn_is_column (d : Db) (x : LoopRow) (i : ItemRow) (k : Nat) (hk :
   simp [Function.comp, List.getD, List.getElem?_map, hk]
 
 end CifModel.Store
+
+namespace CifModel.Store
+
+/-- the caller's packet after cif_pktitr_next_packet holds, for every item name, exactly the value just read — whatever the
+    caller's packet held before (other values, foreign names, other spellings) -/
+theorem mergeCallerPacket_lookup (caller : List (Str × Str)) (p : List (Str × V)) (k : Str) :
+    ((mergeCallerPacket caller p).find? (fun e => e.1 == k)).map (fun e => e.2.2) = (p.find? (fun e => e.1 == k)).map (·.2) := by
+  unfold mergeCallerPacket
+  rw [List.find?_append]
+  induction caller with
+  | nil =>
+    simp only [List.filterMap_nil, List.find?_nil, Option.none_or, List.any_nil, Bool.not_false]
+    have : p.filter (fun _ => true) = p := List.filter_eq_self.mpr (fun _ _ => rfl)
+    rw [this, List.find?_map]
+    have hcomp : ((fun e : Str × Str × V => e.1 == k) ∘ fun e : Str × V => (e.1, e.1, e.2)) = (fun e : Str × V => e.1 == k) := rfl
+    rw [hcomp]
+    cases p.find? (fun e => e.1 == k) <;> rfl
+  | cons c cs ih =>
+    simp only [List.filterMap_cons]
+    cases hc : p.find? (fun e => e.1 == c.1) with
+    | none =>
+      simp only [Option.map_none]
+      -- c's key is not an item of the packet read: dropping it from `caller` changes nothing
+      have hfil : p.filter (fun e => !(c :: cs).any (fun c' => c'.1 == e.1)) = p.filter (fun e => !cs.any (fun c' => c'.1 == e.1)) := by
+        apply List.filter_congr
+        intro e he
+        have : (c.1 == e.1) = false := by
+          cases hx : (c.1 == e.1) with
+          | false => rfl
+          | true =>
+            have := List.find?_eq_none.mp hc e he
+            simp at hx this
+            exact absurd hx.symm this
+        simp [List.any_cons, this]
+      rw [hfil]; exact ih
+    | some e0 =>
+      have he0 := List.find?_some hc
+      simp only [Option.map_some, List.find?_cons]
+      cases hk : (c.1 == k) with
+      | true =>
+        have hck : c.1 = k := by simpa using hk
+        simp only [Option.some_or, Option.map_some]
+        rw [← hck, hc]
+        rfl
+      | false =>
+        simp only []
+        have hfil : ((p.filter (fun e => !(c :: cs).any (fun c' => c'.1 == e.1))).map (fun e => (e.1, e.1, e.2))).find? (fun e => e.1 == k) =
+            ((p.filter (fun e => !cs.any (fun c' => c'.1 == e.1))).map (fun e => (e.1, e.1, e.2))).find? (fun e => e.1 == k) := by
+          rw [List.find?_map, List.find?_map, List.find?_filter, List.find?_filter]
+          congr 1
+          apply find?_congr'
+          intro e _
+          cases hek : (e.1 == k) with
+          | false => simp [Function.comp, hek]
+          | true =>
+            have : (c.1 == e.1) = false := by
+              have h1 : e.1 = k := by simpa using hek
+              rw [h1]; exact hk
+            simp only [Function.comp, hek, List.any_cons, this, Bool.false_or, and_true]
+            try (cases (cs.any fun c' => c'.1 == e.1) <;> rfl)
+        rw [hfil]; exact ih
+
+end CifModel.Store
